@@ -193,7 +193,7 @@ def worker(shard, nshards, tier, seed):
 
 
 def run(tier, seed):
-    acc = parallel(worker, tier, seed)
+    acc = parallel(worker, tier, seed, warm_pass=True)
     n = acc.n["validations"] + acc.n["generations"] + acc.n["substitutions"]
     cov = {
         "states": acc.n["wrapped_trees"],
